@@ -25,12 +25,16 @@ impl ModuleAnalyzer for Provided {
 }
 
 fn parse_with(referrer: &str, kind: GraphKind, info: ModuleInfo) -> Option<JsModule> {
+  parse_with_headers(referrer, kind, info, None)
+}
+
+fn parse_with_headers(referrer: &str, kind: GraphKind, info: ModuleInfo, headers: Option<HashMap<String, String>>) -> Option<JsModule> {
   let provided = Provided(RefCell::new(Some(info)));
   let content: &[u8] = b"";
   let r = futures::executor::block_on(parse_module(ParseModuleOptions {
     graph_kind: kind,
     specifier: ModuleSpecifier::parse(referrer).unwrap(),
-    maybe_headers: None,
+    maybe_headers: headers,
     mtime: None,
     content: Arc::from(content),
     file_system: &NullFileSystem,
@@ -96,6 +100,11 @@ const TEXTS: &[&str] = &[
 const REFERRERS: &[&str] = &["file:///p/m.ts", "https://h.test/sub/m.ts", "https://h.test/m.d.ts", "file:///p/m.js", "file:///p/m.tsx", "http://h.test/m.mjs", "file:///p/m.d.mts"];
 
 pub fn gen_case(seed: u64, k: u64) -> Case {
+  // every other case is a whole declaration: references, JSX source, JSDoc imports and the types header too
+  gen_case_inner(seed, k, k % 2 == 1)
+}
+
+fn gen_case_inner(seed: u64, k: u64, full: bool) -> Case {
   let mut rng = Rng::for_case(seed ^ 0xdec1, k);
   let referrer = *rng.pick(REFERRERS);
   let kind = *rng.pick(&[GraphKind::All, GraphKind::All, GraphKind::CodeOnly, GraphKind::TypesOnly]);
@@ -185,6 +194,75 @@ pub fn gen_case(seed: u64, k: u64) -> Case {
       ty,
     ]));
   }
+  // extras of a whole declaration
+  let mut info_extras = info_of(vec![]);
+  let mut header: Option<String> = None;
+  let mut extra_texts: Vec<String> = vec![];
+  let mut extras_sx = Sx::L(vec![Sx::opt(None), Sx::L(vec![]), Sx::opt(None), Sx::opt(None), Sx::L(vec![]), Sx::opt(None)]);
+  if full {
+    let mut pick_text = |rng: &mut Rng| -> String { if rng.chance(60) { rng.pick(&pool).to_string() } else { rng.pick(TEXTS).to_string() } };
+    let mut swr = |rng: &mut Rng, line: usize, text: String| SpecifierWithRange { range: range_at(line, text.len()), text };
+    let self_types = if rng.chance(30) { let t = pick_text(&mut rng); Some(swr(&mut rng, 200, t)) } else { None };
+    let mut refs = vec![];
+    let mut refs_sx = vec![];
+    for j in 0..rng.below(3) {
+      let t = pick_text(&mut rng);
+      let s0 = swr(&mut rng, 210 + j, t.clone());
+      let rid = ids.id(&range_key(&s0.range));
+      let tid = ids.id(&format!("text:{}", t));
+      if rng.chance(50) {
+        refs.push(TypeScriptReference::Path(s0));
+        refs_sx.push(Sx::atoms([0, tid, rid]));
+      } else {
+        refs.push(TypeScriptReference::Types { specifier: s0, resolution_mode: None });
+        refs_sx.push(Sx::atoms([1, tid, rid]));
+      }
+      extra_texts.push(t);
+    }
+    let jsx = if rng.chance(40) { let t = pick_text(&mut rng); Some(swr(&mut rng, 220, t)) } else { None };
+    let jsx_types = if rng.chance(30) { let t = pick_text(&mut rng); Some(swr(&mut rng, 221, t)) } else { None };
+    let mut jsdoc = vec![];
+    let mut jsdoc_sx = vec![];
+    for j in 0..rng.below(3) {
+      let t = pick_text(&mut rng);
+      let s0 = swr(&mut rng, 230 + j, t.clone());
+      jsdoc_sx.push(Sx::atoms([ids.id(&format!("text:{}", t)), ids.id(&range_key(&s0.range))]));
+      jsdoc.push(JsDocImportInfo { specifier: s0, resolution_mode: None });
+      extra_texts.push(t);
+    }
+    if rng.chance(30) {
+      header = Some(pick_text(&mut rng));
+    }
+    let jsx_text = |s0: &SpecifierWithRange| format!("{}/jsx-runtime", s0.text);
+    let opt_swr = |ids: &mut Ids, s0: &Option<SpecifierWithRange>, jsxish: bool| -> Sx {
+      Sx::opt(s0.as_ref().map(|s0| {
+        let t = if jsxish { jsx_text(s0) } else { s0.text.clone() };
+        Sx::atoms([ids.id(&format!("text:{}", t)), ids.id(&range_key(&s0.range))])
+      }))
+    };
+    for s0 in [&self_types].into_iter().flatten() {
+      extra_texts.push(s0.text.clone());
+    }
+    for s0 in [&jsx, &jsx_types].into_iter().flatten() {
+      extra_texts.push(jsx_text(s0));
+    }
+    if let Some(h) = &header {
+      extra_texts.push(h.clone());
+    }
+    extras_sx = Sx::L(vec![
+      opt_swr(&mut ids, &self_types, false),
+      Sx::L(refs_sx),
+      opt_swr(&mut ids, &jsx, true),
+      opt_swr(&mut ids, &jsx_types, true),
+      Sx::L(jsdoc_sx),
+      Sx::opt(header.as_ref().map(|h| Sx::A(ids.id(&format!("text:{}", h))))),
+    ]);
+    info_extras.self_types_specifier = self_types;
+    info_extras.ts_references = refs;
+    info_extras.jsx_import_source = jsx;
+    info_extras.jsx_import_source_types = jsx_types;
+    info_extras.jsdoc_imports = jsdoc;
+  }
   // what each text resolves to, alone
   let media = MediaType::from_specifier(&ModuleSpecifier::parse(referrer).unwrap());
   let code_referrer = if media.is_declaration() { referrer.replace(".d.mts", ".mts").replace(".d.ts", ".ts") } else { referrer.to_string() };
@@ -198,6 +276,7 @@ pub fn gen_case(seed: u64, k: u64) -> Case {
       all_texts.push(t.text.clone());
     }
   }
+  all_texts.extend(extra_texts.iter().cloned());
   all_texts.sort();
   all_texts.dedup();
   let mut exec = vec![];
@@ -227,7 +306,11 @@ pub fn gen_case(seed: u64, k: u64) -> Case {
       }
     }
   }
-  let real = parse_with(referrer, kind, info_of(descs));
+  let shown_extras = serde_json::to_value(&info_extras).unwrap();
+  let mut whole = info_extras;
+  whole.dependencies = descs;
+  let headers = header.as_ref().map(|h| [("x-typescript-types".to_string(), h.clone())].into_iter().collect::<HashMap<_, _>>());
+  let real = parse_with_headers(referrer, kind, whole, headers);
   let mut obs = vec![];
   let mut direct = vec![];
   let mut n_multi = 0;
@@ -253,10 +336,23 @@ pub fn gen_case(seed: u64, k: u64) -> Case {
     }
   }
   let opts = Sx::L(vec![Sx::b(kind.include_types()), Sx::b(media.is_declaration()), Sx::b(media.is_typed())]);
+  let (input, obs_sx) = if full {
+    let zero = ids.id(&range_key(&PositionRange::zeroed()));
+    let td = Sx::opt(real.as_ref().and_then(|m| m.maybe_types_dependency.as_ref()).map(|td| {
+      let tid = ids.id(&format!("text:{}", td.specifier));
+      Sx::L(vec![Sx::A(tid), res_sx(&td.dependency, &mut ids)])
+    }));
+    (
+      Sx::L(vec![Sx::A(31340), opts, Sx::L(vec![Sx::b(media.is_jsx()), Sx::A(zero)]), Sx::L(vec![Sx::L(exec), Sx::L(types)]), extras_sx, Sx::L(descr_sx)]),
+      Sx::L(vec![Sx::L(vec![td, Sx::L(obs)])]),
+    )
+  } else {
+    (Sx::L(vec![Sx::A(DECLTAG), opts, Sx::L(vec![Sx::L(exec), Sx::L(types)]), Sx::L(descr_sx)]), Sx::L(vec![Sx::L(obs)]))
+  };
   Case {
-    input: Sx::L(vec![Sx::A(DECLTAG), opts, Sx::L(vec![Sx::L(exec), Sx::L(types)]), Sx::L(descr_sx)]),
-    obs: Sx::L(vec![Sx::L(obs)]),
-    meta: serde_json::json!({"stream": "declaration layer", "referrer": referrer, "graph_kind": format!("{:?}", kind), "descriptors": shown,
+    input,
+    obs: obs_sx,
+    meta: serde_json::json!({"stream": "declaration layer", "referrer": referrer, "graph_kind": format!("{:?}", kind), "descriptors": shown, "whole_declaration": full, "extras": shown_extras, "types_header": header,
       "recorded": real.as_ref().map(|m| serde_json::to_value(&m.dependencies).unwrap())}),
     nontrivial: n_multi >= 1,
     dist: vec![(format!("decl_descriptors_{}", n), 1), (format!("decl_entries_with_several_imports_{}", n_multi.min(3)), 1)],
